@@ -355,12 +355,15 @@ def resumeNonBlockingCheck (ctx : Ctx) (rules : Option Rules) (lastMatch : Optio
       let s := if s.path = [] then s.fail .pausedNoPath else s
       (lm, .paused s)
 
+/-- harness/c44.cc completeRun(): the pending lookup of `leaf` is done -/
+def popPending (s : CL) (leaf : Nat) : CL := { s with pending := none, rounds := popRound s.rounds leaf }
+
 /-- harness/c44.cc completeRun(): the pending lookup is done, the checklist is resumed -/
 def completeLookup (ctx : Ctx) (rules : Option Rules) (lastMatch : Option Nat) (s : CL) : Option Nat × StepOut :=
   match s.pending with
   | none => (lastMatch, .paused (s.fail .noPending))
   | some leaf =>
-    resumeNonBlockingCheck ctx rules lastMatch { s with pending := none, rounds := popRound s.rounds leaf }
+    resumeNonBlockingCheck ctx rules lastMatch (popPending s leaf)
 
 /-- ACLChecklist::fastCheck() -/
 def fastCheck (ctx : Ctx) (rules : Option Rules) (lastMatch : Option Nat) (s : CL) : Option Nat × StepOut :=
